@@ -862,7 +862,12 @@ func c04Run(c *engine.Ctx, in []byte, args map[string]string) {
 					}
 				}
 				if cnt == 1 && occs[0].name != "" {
-					_ = other
+					// the shadowing binding is now known under this name: its other occurrences must agree
+					if o.binding == other {
+						if _, known := b2n[other]; !known {
+							b2n[other] = g
+						}
+					}
 					continue
 				}
 			}
